@@ -3,6 +3,7 @@ import json
 import os
 import re
 import vcheck
+import c13_cpf
 
 META = {
     "engine": "coq+correspondence",
@@ -1620,15 +1621,20 @@ def main(argv):
         allobs, corr_bad, mon_bad, model_mon_bad = run_simple(c, binary, cases)
 
     rpl = json.load(open(c.replay)) if c.replay else {}
-    bls_cov = run_bls(c) if "case" not in rpl and "fin_case" not in rpl else {}
+    bls_cov = run_bls(c) if "case" not in rpl and "fin_case" not in rpl and "cpf_case" not in rpl else {}
     tree_cov = {}
-    if "case" not in rpl and "fin_case" not in rpl:
+    if "case" not in rpl and "fin_case" not in rpl and "cpf_case" not in rpl:
         proved_tree = c.prove("C13Bls")
         tree_cov = run_tree(c, proved_tree)
     fin_cov = {}
-    if "case" not in rpl and "tree_case" not in rpl:
+    if "case" not in rpl and "tree_case" not in rpl and "cpf_case" not in rpl:
         proved_fin = c.prove("C13BlsFinal") if os.path.exists(os.path.join(vcheck.COQ, "Properties", "C13BlsFinal.v")) else True
         fin_cov = run_fin(c, proved_fin)
+
+    cpf_cov = {}
+    if "case" not in rpl and "tree_case" not in rpl and "fin_case" not in rpl:
+        proved_cpf = c.prove("C13Cpf")
+        cpf_cov = c13_cpf.run_cpf(c, proved_cpf)
 
     # ------------------------------------------------------------------ verdict
     seen_keys = set()
@@ -1691,4 +1697,5 @@ def main(argv):
     c.coverage.update(bls_cov)
     c.coverage.update(tree_cov)
     c.coverage.update(fin_cov)
+    c.coverage.update(cpf_cov)
     c.finish()
